@@ -3,6 +3,7 @@
 #include <stdint.h>
 #include <stddef.h>
 typedef uintptr_t mptr;                 /* marked_ptr: one pointer-sized word (unit mp) */
+typedef mptr marked_ptr;                /* the class' member typedef, should a body declare a local of that type */
 /* ---- event monitor of the atomic model: what the std::atomic<marked_ptr> sees ---- */
 enum { EV_NONE = 0, EV_LOAD, EV_STORE, EV_CAS };
 unsigned ev_count; int ev_kind; void* ev_addr; mptr ev_value; int ev_order;
